@@ -25,6 +25,8 @@ pub struct Profile3 {
     pub max_steps: u64,
     pub max_batch: u64,
     pub drain: bool,
+    /// share of runs in which one step receives a large batch (hundreds to thousands of instructions)
+    pub big_batch: f64,
 }
 
 pub fn profile3(prop: &str) -> Profile3 {
@@ -42,13 +44,14 @@ pub fn profile3(prop: &str) -> Profile3 {
         max_steps: 30,
         max_batch: 12,
         drain: true,
+        big_batch: 0.0,
     };
     match prop {
-        "C08" => base,
-        "C10" => Profile3 { monitors: INVISIBLE, toggle: 0.08, start_halted: 0.1, ..base },
-        "C11" => Profile3 { monitors: RECORDS, asym: true, toggle: 0.02, ..base },
+        "C08" => Profile3 { big_batch: 0.004, ..base },
+        "C10" => Profile3 { monitors: INVISIBLE, toggle: 0.08, start_halted: 0.1, big_batch: 0.006, ..base },
+        "C11" => Profile3 { monitors: RECORDS, asym: true, toggle: 0.02, big_batch: 0.004, ..base },
         // per-asset environment-level queries too: cached level-2 snapshot and recorded histories of every asset
-        "C14" => Profile3 { monitors: BELIEF | SHADOW | RECORDS | INVISIBLE, force_market: true, market_share: 1.0, asym: true, ..base },
+        "C14" => Profile3 { monitors: BELIEF | SHADOW | RECORDS | INVISIBLE, force_market: true, market_share: 1.0, asym: true, big_batch: 0.003, ..base },
         "C05" => Profile3 { monitors: BELIEF | TIE_CLASSIFY, overflow: true, always_steer: true, market_share: 0.25, toggle: 0.0, start_halted: 0.0, max_steps: 12, ..base },
         "C12" => Profile3 { monitors: GRID | INVISIBLE, offgrid: 0.25, drain: false, ..base },
         "C13" => Profile3 { monitors: BELIEF | HALT, toggle: 0.35, start_halted: 0.4, ..base },
@@ -68,6 +71,8 @@ struct Gen3<'a> {
     ops: Vec<EnvOp>,
     gen_rng: SeamRng,
     vol_kind: u8,
+    /// cap on the queue length of the step being filled
+    max_pending: usize,
 }
 
 impl<'a> Gen3<'a> {
@@ -75,7 +80,7 @@ impl<'a> Gen3<'a> {
         self.pending.iter().filter(|i| !matches!(i, Instr::New { .. })).count()
     }
     fn room(&self) -> bool {
-        self.pending.len() < 64 && (self.cfg.allow_overflow || (self.pending.len() as u64) < self.cfg.step_size)
+        self.pending.len() < self.max_pending && (self.cfg.allow_overflow || (self.pending.len() as u64) < self.cfg.step_size)
     }
     fn asset(&mut self) -> usize {
         self.r.usize(self.cfg.assets)
@@ -357,8 +362,27 @@ pub fn generate(prop: &str, seed: u64) -> W3Scn {
     let deep = p.asym && r.chance(0.5);
     let alph: Vec<Vec<u32>> = ticks.iter().map(|t| make_alphabet(&mut r, *t, if deep { 3 } else if narrow { 0 } else { 1 })).collect();
     let vol_kind = if narrow { r.range(0, 1) as u8 } else { r.range(0, 2) as u8 };
+    // large-batch runs: one step of the run receives hundreds to thousands of instructions (sizes around powers of two
+    // are favoured: buffers, chunked processing and capacity limits live there)
+    let big: Option<usize> = if !p.overflow && p.big_batch > 0.0 && r.chance(p.big_batch) {
+        let base = *r.pick(&[128u64, 256, 512, 1024, 1024, 2048, 4096, 4096, 4096, 8192]);
+        Some(match r.below(4) {
+            0 => base - 1,
+            1 => base,
+            2 => base + 1 + r.below(3),
+            _ => r.range(100, 6000),
+        } as usize)
+    } else {
+        None
+    };
     // small step sizes make "batch size == step size" (the upper bound the valid histories allow) a common case
-    let step_size = if p.overflow {
+    let step_size = if let Some(b) = big {
+        if r.chance(0.3) {
+            b as u64 + r.below(2)
+        } else {
+            *r.pick(&[1_000_000u64, 1_000_000_000])
+        }
+    } else if p.overflow {
         r.range(1, 4)
     } else if r.chance(0.3) {
         r.range(1, 12)
@@ -389,9 +413,11 @@ pub fn generate(prop: &str, seed: u64) -> W3Scn {
     let ms: Vec<Model> = (0..assets).map(|a| Model::new(t0, cfg.ticks[a], trading0, Tie::Fifo)).collect();
     let n_steps = if r.chance(0.75) { r.range(1, 8) } else { r.range(9, p.max_steps) };
     let gen_rng = SeamRng::passthrough(cfg.rng_seed);
-    let mut g = Gen3 { r: &mut r, p: &p, cfg: cfg.clone(), alph, ms, n_orders: vec![0; assets], pending: vec![], ops: vec![], gen_rng, vol_kind };
+    let mut g = Gen3 { r: &mut r, p: &p, cfg: cfg.clone(), alph, ms, n_orders: vec![0; assets], pending: vec![], ops: vec![], gen_rng, vol_kind, max_pending: 64 };
     let mut trading = trading0;
-    for _ in 0..n_steps {
+    let n_steps = if big.is_some() { n_steps.min(5) } else { n_steps };
+    let big_step = big.map(|_| g.r.below(n_steps));
+    for step_i in 0..n_steps {
         if g.r.chance(p.toggle) {
             // (a fifth of the requests are redundant: the switch is a flag, not a counter)
             if g.r.chance(0.8) {
@@ -406,15 +432,30 @@ pub fn generate(prop: &str, seed: u64) -> W3Scn {
                 }
             }
         }
-        let nb = match g.r.below(20) {
-            0 => 0,
-            1 | 2 => 1,
-            3..=14 => g.r.range(2, 6),
-            _ => g.r.range(7, p.max_batch),
-        } as usize;
+        let is_big = big_step == Some(step_i);
+        let nb = if is_big {
+            big.unwrap_or(0)
+        } else {
+            (match g.r.below(20) {
+                0 => 0,
+                1 | 2 => 1,
+                3..=14 => g.r.range(2, 6),
+                _ => g.r.range(7, p.max_batch),
+            }) as usize
+        };
+        g.max_pending = if is_big { nb } else { 64 };
         let mut guard = 0;
         while g.pending.len() < nb && guard < 4 * nb + 4 {
             guard += 1;
+            if is_big && g.r.chance(0.85) {
+                // the bulk of a large batch: passive orders (and a few takers), so that the book stays meaningful
+                if g.r.chance(0.9) {
+                    g.maker()
+                } else {
+                    g.taker()
+                }
+                continue;
+            }
             if p.offgrid > 0.0 && g.r.chance(p.offgrid) {
                 g.offgrid_new();
                 continue;
